@@ -489,6 +489,35 @@ class Fresh:
         return None
 
 
+class FreshShared:
+    """like Fresh, but atoms are *persistent shared objects* (one object per distinct value, e.g. a NIL
+    singleton for list terminators) while pairs build fresh wrappers on every call: a pair can then have
+    one child the walk has already seen and one temporary child"""
+    __slots__ = ("_v", "_pool")
+
+    def __init__(self, v, pool=None):
+        self._v = v
+        self._pool = {} if pool is None else pool
+
+    @property
+    def atom(self):
+        return None if isinstance(self._v, tuple) else self._v
+
+    def _child(self, x):
+        if isinstance(x, tuple):
+            return FreshShared(x, self._pool)
+        o = self._pool.get(x)
+        if o is None:
+            o = self._pool[x] = FreshShared(x, self._pool)
+        return o
+
+    @property
+    def pair(self):
+        if isinstance(self._v, tuple):
+            return (self._child(self._v[0]), self._child(self._v[1]))
+        return None
+
+
 # (LazyNode and Fresh are the wrappers whose children are created by the `pair` accessor and would die
 # as soon as the walk dropped them: finding E, repaired by /repo 6e19398; any failure is a plain failure)
 
@@ -502,6 +531,7 @@ def wrappers(v, blob):
     yield "Program.wrap(CLVMTree)", lambda: Program.wrap(CLVMTree.from_bytes(blob))
     yield "LazyNode", lambda: ext.deser_legacy(blob)
     yield "Fresh", lambda: Fresh(v)
+    yield "FreshShared", lambda: FreshShared(v)
     # sub-trees that are raw LazyNode handles of *different* allocators (each deserialized on its own)
     def mixed(x, depth):
         if depth == 0 or not isinstance(x, tuple):
